@@ -172,3 +172,151 @@ MUTANTS += [
  dict(name='c04-fq12-table-entry', prop='C04', expect='frob|fq12_frobenius_coeff_c1',
       edits=[('src/bls12_381/fq12.cpp', '{{{{.std_words = {0xa55c9ad1, 0x3e2f585d,', '{{{{.std_words = {0xa55c9ad1, 0x3e2f585c,')]),
 ]
+MUTANTS += [
+ dict(name='c09-revert-D2-canonical', prop='C09', revert='D2', expect='canonical'),
+ dict(name='c09-drop-subgroup', prop='C09', expect='mustpass',
+      edits=[('src/bls12_381/curve.cpp', """            if (!g.is_in_correct_subgroup_assuming_on_curve()) {
+                return false;
+            }
+""", "")]),
+ dict(name='c09-padding-from-2', prop='C09', expect='padding',
+      edits=[('src/bls12_381/curve.cpp', 'for (int i = 1; i != sizeof(this->data); i++) {', 'for (int i = 2; i != sizeof(this->data); i++) {')]),
+ dict(name='c09-checked-literal-false', prop='C09', expect='on-curve',
+      edits=[('src/bls12_381/curve.cpp', 'if (!g.get_point_from_x(g.x, greater, checked)) {', 'if (!g.get_point_from_x(g.x, greater, false)) {')]),
+ dict(name='c09-legendre-only-unchecked', prop='C09', expect='getpoint',
+      edits=[('include/bls12_381/curve.hpp', 'if (checked && x3b.legendre() == -1) {', 'if (!checked && x3b.legendre() == -1) {')]),
+ dict(name='c09-form-test-only-unchecked', prop='C09', expect='form',
+      edits=[('src/bls12_381/curve.cpp', 'if (checked && is_encoding_compressed(this->data[0]) != compressed) {', 'if (!checked && is_encoding_compressed(this->data[0]) != compressed) {')]),
+ dict(name='c09-flag-residue-mask-narrow', prop='C09', benign=False, expect='flag-residue',
+      edits=[('src/bls12_381/curve.cpp', 'if ((this->data[0] & ~(encoding_flags_compressed | encoding_flags_infinity)) != 0) {\n                    return false;\n                }\n', '')]),
+ dict(name='c09-subgroup-uses-cofactor', prop='C09', expect='subgroup',
+      edits=[('include/bls12_381/curve.hpp', 'ar.multiply_doubleadd_restrict(*this, ScalarField::p_value);', 'ar.multiply_doubleadd_restrict(*this, ScalarField::r_value);')]),
+ dict(name='c09-memcmp-half', prop='C09', expect='canonical',
+      edits=[('src/bls12_381/curve.cpp', 'return memcmp(canonical.data, this->data, sizeof(this->data)) == 0;', 'return memcmp(canonical.data, this->data, sizeof(this->data) / 2) == 0;')]),
+ dict(name='c09-uncompressed-skip-oncurve', prop='C09', expect='on-curve',
+      edits=[('src/bls12_381/curve.cpp', """                if (!g.is_on_curve()) {
+                    return false;
+                }""", """                if (!g.is_on_curve() && g.x.is_zero()) {
+                    return false;
+                }""")]),
+]
+MUTANTS += [
+ dict(name='c11-revert-D7', prop='C11', revert='D7', expect='cursor|nondelegable_keygen|k'),
+ dict(name='c11-revert-D8', prop='C11', revert='D8', expect='cursor|qualifykey|x'),
+ dict(name='c11-revert-D9', prop='C11', revert='D9', expect='cursor|nondelegable_qualifykey|x'),
+ dict(name='c11-keygen-kpp-inside-visible-only', prop='C11', expect='cursor|keygen|k',
+      edits=[('src/wkdibe/api.cpp', """                if (!attrs.attrs[k].omitFromKeys) {
+                    temp.multiply(params.h[i], attrs.attrs[k].id);
+                    sk.a0.add(sk.a0, temp);
+                }
+                k++;
+            } else if (!attrs.omitAllFromKeysUnlessPresent) {
+                sk.b[j].idx = i;
+                sk.b[j].hexp.multiply(params.h[i], r);""", """                if (!attrs.attrs[k].omitFromKeys) {
+                    temp.multiply(params.h[i], attrs.attrs[k].id);
+                    sk.a0.add(sk.a0, temp);
+                    k++;
+                }
+            } else if (!attrs.omitAllFromKeysUnlessPresent) {
+                sk.b[j].idx = i;
+                sk.b[j].hexp.multiply(params.h[i], r);""")]),
+ dict(name='c11-qualifykey-length-x', prop='C11', expect='length',
+      edits=[('src/wkdibe/api.cpp', '        qualified.l = j;\n        qualified.signatures = sk.signatures;\n        if (qualified.signatures) {\n            qualified.bsig.multiply(', '        qualified.l = x;\n        qualified.signatures = sk.signatures;\n        if (qualified.signatures) {\n            qualified.bsig.multiply(')]),
+ dict(name='c12-hidden-still-delegable', prop='C12', expect='R-HIDDEN',
+      edits=[('src/wkdibe/api.cpp', """                } else if (x != sk.l && sk.b[x].idx == i) {
+                    /* Hidden slot: drop the parent's component for it. */
+                    x++;
+                }""", """                } else if (x != sk.l && sk.b[x].idx == i) {
+                    /* Hidden slot: keep the parent's component for it. */
+                    qualified.b[j].idx = i;
+                    qualified.b[j].hexp.copy(sk.b[x].hexp);
+                    j++;
+                    x++;
+                }""")]),
+ dict(name='c12-precompute-skips-hidden', prop='C12', expect='R-TOTAL',
+      edits=[('src/wkdibe/api.cpp', """            const Attribute& attr = attrs.attrs[i];
+            temp.multiply(params.h[attr.idx], attr.id);
+            precomputed.prodexp.add(precomputed.prodexp, temp);
+        }
+    }
+
+    void adjust_precomputed""", """            const Attribute& attr = attrs.attrs[i];
+            if (attr.omitFromKeys) {
+                continue;
+            }
+            temp.multiply(params.h[attr.idx], attr.id);
+            precomputed.prodexp.add(precomputed.prodexp, temp);
+        }
+    }
+
+    void adjust_precomputed""")]),
+ dict(name='c12-nondelegable-keygen-hidden-contributes', prop='C12', expect='R-HIDDEN',
+      edits=[('src/wkdibe/api.cpp', """            if (k != attrs.length && attrs.attrs[k].idx == i) {
+                if (!attrs.attrs[k].omitFromKeys) {
+                    temp.multiply(params.h[i], attrs.attrs[k].id);
+                    sk.a0.add(sk.a0, temp);
+                }
+                k++;
+            } else if (!attrs.omitAllFromKeysUnlessPresent) {
+                sk.b[j].idx = i;
+                sk.b[j].hexp.copy(params.h[i]);""", """            if (k != attrs.length && attrs.attrs[k].idx == i) {
+                temp.multiply(params.h[i], attrs.attrs[k].id);
+                sk.a0.add(sk.a0, temp);
+                k++;
+            } else if (!attrs.omitAllFromKeysUnlessPresent) {
+                sk.b[j].idx = i;
+                sk.b[j].hexp.copy(params.h[i]);""")]),
+]
+MUTANTS += [
+ dict(name='c15-seed-firstbyte', prop='C15', patch='seeded/C17-length-firstbyte-predicate/patch.diff', expect='len|firstbyte'),
+ dict(name='c17-seed-firstbyte', prop='C17', patch='seeded/C17-length-firstbyte-predicate/patch.diff', expect='len|firstbyte'),
+ dict(name='c15-secretkey-length-forgets-bsig', prop='C15', expect='R-FOOT',
+      edits=[('include/wkdibe/api.hpp', 'return SecretKey::marshalledLengthMinimum<compressed> + length * FreeSlot::marshalledLength<compressed> + (signatures ? 1 : 0) * bls12_381::Encoding<G1Affine, compressed>::size;',
+              'return SecretKey::marshalledLengthMinimum<compressed> + length * FreeSlot::marshalledLength<compressed> + (signatures ? 1 : 0) * bls12_381::Encoding<G2Affine, compressed>::size;')]),
+ dict(name='c15-params-unmarshal-swaps-g2-g3', prop='C15', expect='R-PAIR',
+      edits=[('src/wkdibe/marshal.cpp', '        this->g2.from_affine(g2affine);\n\n        G1Affine g3affine;', '        this->g3.from_affine(g2affine);\n\n        G1Affine g3affine;'),
+             ('src/wkdibe/marshal.cpp', '        this->g3.from_affine(g3affine);\n\n        if constexpr(compressed) {', '        this->g2.from_affine(g3affine);\n\n        if constexpr(compressed) {')]),
+ dict(name='c15-idx-byteorder-mismatch', prop='C15', expect='R-PAIR',
+      edits=[('src/wkdibe/marshal.cpp', 'encoded->idx[0] = (uint8_t) (this->idx >> 24);\n        encoded->idx[1] = (uint8_t) (this->idx >> 16);', 'encoded->idx[1] = (uint8_t) (this->idx >> 24);\n        encoded->idx[0] = (uint8_t) (this->idx >> 16);')]),
+ dict(name='c15-ciphertext-decode-verdict-dropped', prop='C15', expect='R-MUSTCHECK',
+      edits=[('src/wkdibe/marshal.cpp', """        G1Affine caffine;
+        if (!encoded->c.decode(caffine, checked)) {
+            return false;
+        }
+        this->c.from_affine(caffine);""", """        G1Affine caffine;
+        encoded->c.decode(caffine, checked);
+        this->c.from_affine(caffine);""")]),
+ dict(name='c15-hsig-checked-literal', prop='C15', expect='R-MUSTCHECK',
+      edits=[('src/wkdibe/marshal.cpp', 'if (!hsig->decode(hsigaffine, checked)) {', 'if (!hsig->decode(hsigaffine, false)) {')]),
+ dict(name='c15-guard-le', prop='C15', benign=True, expect='',
+      edits=[('include/wkdibe/api.hpp', """            if (marshalledLength < withoutLength) {
+                return -1;
+            }
+            size_t hsize""", """            if (!(marshalledLength >= withoutLength)) {
+                return -1;
+            }
+            size_t hsize""")]),
+ dict(name='c15-unguarded-subtraction', prop='C15', expect='len|guard',
+      edits=[('include/wkdibe/api.hpp', """            if (marshalledLength < withoutLength) {
+                return -1;
+            }
+            size_t bsize""", """            size_t bsize""")]),
+ dict(name='c15-setlength-always-stores', prop='C15', expect='len|setLength',
+      edits=[('include/wkdibe/api.hpp', """            int len = SecretKey::unmarshalledLength<compressed>(marshalled, marshalledLength);
+            if (len != -1) {
+                this->l = len;
+            }""", """            int len = SecretKey::unmarshalledLength<compressed>(marshalled, marshalledLength);
+            this->l = len;""")]),
+ dict(name='c15-marshal-h-loop-off-by-one', prop='C15', expect='R-FOOT',
+      edits=[('src/wkdibe/marshal.cpp', """        for (int i = 0; i != this->l; i++) {
+            G1Affine haffine;
+            haffine.from_projective(this->h[i]);
+            h[i].encode(haffine);""", """        for (int i = 0; i != this->l; i++) {
+            G1Affine haffine;
+            haffine.from_projective(this->h[i]);
+            h[i + 1].encode(haffine);""")]),
+]
+MUTANTS += [
+ dict(name='c15-compressed-params-pairing-roles', prop='C15', expect='params-pairing',
+      edits=[('src/wkdibe/marshal.cpp', 'bls12_381::pairing(this->pairing, g2affine, g1affine);', 'bls12_381::pairing(this->pairing, g3affine, g1affine);')]),
+]
